@@ -223,7 +223,7 @@ Proof.
   rewrite bytes_eqb_refl. cbn [negb].
   rewrite (alh_of_valid H th Vt). cbn [bind]. fold (A_at hs j).
   rewrite bytes_eqb_refl. cbn [negb].
-  destruct (N.eqb_spec i j) as [|Ne]; [reflexivity|].
+  destruct (N.eqb_spec i j) as [E|Ne]; [rewrite E, bytes_eqb_refl; reflexivity|].
   destruct (N.ltb_spec i j); [|lia].
   specialize (Hc ltac:(lia)). rewrite Bj in Rt. rewrite Rt in Hc |- *.
   rewrite tree_inclusion_complete by lia. cbn [negb].
